@@ -68,7 +68,7 @@ PROPS = {
                        'Verus proves equal to the spec functions the property is stated with',
     },
     'C02': {
-        'kani': [K('langid_leaf', h) for h in LEAF_LID],
+        'kani': [K('langid_leaf', h) for h in LEAF_LID] + [K('langid_wrap', 'wrappers_agree_with_parser')],
         'verus': [V('bridge', BRIDGE_LID)] + LID_PARSER,
         'standin': ['lid'],
         'explanation': 'parse_language_identifier_from_iter (verbatim text, loop invariant + decreases) returns exactly the value / error '
@@ -275,7 +275,8 @@ PROPS.update({
                 [K('langid_match@' + FEATS_L, 'match_variants_only', bounded='variant lists of length <= 2 per side')] +
                 LOCALE_LEAF + [K(k['unit'] + '@likelysubtags', k['harness']) for k in LOCALE_LEAF] +
                 [K('langid_dir', 'dir_is_model'), K('langid_dir_likely', 'dir_is_model'), K('langid_serde', 'from_str_is_from_bytes'),
-                 K('langid_serde', 'deserialize_str_is_parse')],
+                 K('langid_serde', 'deserialize_str_is_parse'), K('langid_wrap', 'wrappers_agree_with_parser'),
+                 K('langid_wrap@' + FEATS_L, 'wrappers_agree_with_parser')],
         'verus': [V('bridge', BRIDGE_ALL),
                   V('langid', r'^unic_langid_impl::(?!likelysubtags)'), V('langid', r'^unic_langid_impl::(?!likelysubtags)', features=('likelysubtags',)),
                   V('locale', r'^unic_locale_impl::'), V('locale', r'^unic_locale_impl::', features=('likelysubtags',))],
